@@ -1,6 +1,9 @@
 (* Properties_C10_sparse.v -- C10, sparse interface: setup keeps the upper triangle of P, update(P) reads only
    the upper triangle of a SORTED caller matrix whose upper triangle has the stored pattern.
-   Statements only; the proofs are in SparsePProofs.v, the model in SparseUpdateP.v. *)
+   Statements only; the proofs are in SparsePProofs.v, the model in SparseUpdateP.v.
+   [triu] is the FAITHFUL model of  P_utri = P.triangularView<Upper>() : per column the longest storage-order prefix of
+   entries with row <= column (Eigen's iterator stops at the first entry below the diagonal); [triu_filter] keeps every
+   entry with row <= column; they coincide iff [upper_first_cols] (implied by [sorted_cols]). *)
 From PIQP Require Import Base CSC SparseUpdateP SparsePProofs.
 Local Open Scope nat_scope.
 
@@ -21,11 +24,11 @@ Theorem update_reads_upper_only_sparse : forall Pu P : csc F,
 Proof. exact update_reads_upper_only_sparse_proof. Qed.
 Print Assumptions update_reads_upper_only_sparse.
 
-(* 1, with the hypotheses that are actually used *)
+(* the copy loop reproduces what setup would store from the same caller matrix, sorted or not *)
 Theorem update_P_copy_returns_triu : forall Pu P : csc F,
-  wf_csc Pu = true -> wf_csc P = true -> sorted_cols P = true -> same_pattern (triu P) Pu ->
+  wf_csc Pu = true -> wf_csc P = true -> same_pattern (triu P) Pu ->
   update_P_copy Pu P = Ok (triu P).
-Proof. exact update_P_copy_is_triu. Qed.
+Proof. exact update_P_copy_is_triu_any. Qed.
 Print Assumptions update_P_copy_returns_triu.
 
 (* the validation loop accepts; sortedness is not needed for this part *)
@@ -62,8 +65,8 @@ Print Assumptions update_semantic_independent_sparse.
 Theorem update_reads_upper_only_sparse_unsorted_refuted :
   wf_csc cx_Pu = true /\ wf_csc cx_P = true /\
   nrows cx_P = nrows cx_Pu /\ ncols cx_P = ncols cx_Pu /\ nrows cx_P = ncols cx_P /\
-  same_pattern (triu cx_P) cx_Pu /\
-  sorted_cols cx_P = false /\
+  same_pattern (triu_filter cx_P) cx_Pu /\
+  sorted_cols cx_P = false /\ upper_first_cols cx_P = false /\
   update_P_check cx_Pu cx_P = true /\
   update_P_copy cx_Pu cx_P = Ok cx_Pu' /\
   same_pattern cx_Pu' cx_Pu /\
@@ -90,18 +93,37 @@ Theorem update_reads_upper_only_sparse_needs_sorted :
 Proof. exact update_reads_upper_only_sparse_needs_sorted_proof. Qed.
 Print Assumptions update_reads_upper_only_sparse_needs_sorted.
 
-(* 4 *)
+(* 4: setup.  The entry-wise identity needs that in no column an entry with row <= column is stored after an entry
+   with row > column (upper_first_cols; implied by sorted columns) *)
 Theorem setup_reads_upper_only_sparse : forall P : csc F,
   wf_csc P = true ->
   nrows (triu P) = nrows P /\ ncols (triu P) = ncols P /\
   wf_csc (triu P) = true /\
   upper_only (triu P) = true /\
-  (forall i j, csc_get (triu P) i j = if i <=? j then csc_get P i j else 0%Qc) /\
+  (sorted_cols P = true -> upper_first_cols P = true) /\
+  (upper_first_cols P = true -> triu P = triu_filter P) /\
+  (upper_first_cols P = true -> forall i j, csc_get (triu P) i j = if i <=? j then csc_get P i j else 0%Qc) /\
   triu (triu P) = triu P /\
   (upper_only P = true -> triu P = P) /\
   (sorted_cols P = true -> sorted_cols (triu P) = true).
 Proof. exact setup_reads_upper_only_sparse_proof. Qed.
 Print Assumptions setup_reads_upper_only_sparse.
+
+(* 4': the hypothesis is needed, and this is what the code does (harness/drv_updatep.cpp on SparseSolver<double,int>):
+   column 0 = [(row 1, 7); (row 0, 2)] is dropped entirely, P_utri = colptr [0,0,2], rowind [0,1], vals [5,6] *)
+Theorem setup_reads_upper_only_sparse_unsorted_refuted :
+  wf_csc us_P = true /\ sorted_cols us_P = false /\ upper_first_cols us_P = false /\
+  triu us_P = us_T /\
+  triu_filter us_P = mkcsc 2 2 [0; 1; 3] [0; 0; 1] [qofZ 2; qofZ 5; qofZ 6] /\
+  csc_get (triu us_P) 0 0 = 0%Qc /\ csc_get us_P 0 0 = qofZ 2 /\
+  csc_get (triu us_P) 0 0 <> csc_get us_P 0 0.
+Proof. exact setup_reads_upper_only_sparse_unsorted_refuted_proof. Qed.
+Print Assumptions setup_reads_upper_only_sparse_unsorted_refuted.
+
+Example us_P_is : us_P = mkcsc 2 2 [0; 2; 4] [1; 0; 0; 1] [qofZ 7; qofZ 2; qofZ 5; qofZ 6].
+Proof. reflexivity. Qed.
+Example us_T_is : us_T = mkcsc 2 2 [0; 0; 2] [0; 1] [qofZ 5; qofZ 6].
+Proof. reflexivity. Qed.
 
 (* 5: non-vacuity.  [4 1 0; 1 5 2; 0 2 6] stored in full, upper only, and upper + garbage strictly below *)
 Example ex_P_full_is :
